@@ -322,7 +322,7 @@ class Pile(Widget, WidgetContainerMixin, WidgetContainerListContentsMixin):
 
     @widget_list.setter
     def widget_list(self, widgets):
-        focus_position = self.focus_position
+        focus_position = self.contents.focus  # None while the container is empty
         self.contents = [
             (new, options)
             for (new, (w, options)) in zip(
@@ -331,7 +331,7 @@ class Pile(Widget, WidgetContainerMixin, WidgetContainerListContentsMixin):
                 chain(self.contents, repeat((None, (WHSettings.WEIGHT, 1)))),
             )
         ]
-        if focus_position < len(widgets):
+        if focus_position is not None and focus_position < len(widgets):
             self.focus_position = focus_position
 
     @property
@@ -368,12 +368,12 @@ class Pile(Widget, WidgetContainerMixin, WidgetContainerListContentsMixin):
             DeprecationWarning,
             stacklevel=2,
         )
-        focus_position = self.focus_position
+        focus_position = self.contents.focus  # None while the container is empty
         self.contents = [
             (w, ({Sizing.FIXED: WHSettings.GIVEN, Sizing.FLOW: WHSettings.PACK}.get(new_t, new_t), new_height))
             for ((new_t, new_height), (w, options)) in zip(item_types, self.contents)
         ]
-        if focus_position < len(item_types):
+        if focus_position is not None and focus_position < len(item_types):
             self.focus_position = focus_position
 
     @property
